@@ -33,8 +33,9 @@ func (r *requiredValidator) Validate() string {
 }
 
 func required(name string, typ types.Type) string {
-	// Handle slices, maps, and channels specifically for required validation
-	switch typ.(type) {
+	// Handle slices, maps, and channels specifically for required validation.
+	// Named types (e.g. `type Tags []string`) are resolved through their underlying type.
+	switch typ.Underlying().(type) {
 	case *types.Slice, *types.Map, *types.Chan:
 		return fmt.Sprintf("t.%s == nil", name)
 	case *types.Array:
